@@ -54,7 +54,7 @@ func snapString(m map[string]string) string {
 }
 
 var ctxModel = porcupine.Model{
-	Init: func() interface{} { return "" },
+	Init: func() interface{} { return "kT=5000;" },
 	Step: func(state, input, output interface{}) (bool, interface{}) {
 		st := map[string]string{}
 		for _, kv := range strings.Split(state.(string), ";") {
@@ -71,6 +71,7 @@ var ctxModel = porcupine.Model{
 			v, ok := st[in.key]
 			return ok == out.ok && v == out.val, state
 		default:
+			delete(st, "kT") // the timeout is not part of RequestHeaders() as far as this model goes
 			return snapString(st) == out.snap, state
 		}
 	},
@@ -92,7 +93,23 @@ func ctxHarness(rc *RunCtx) {
 	rc.Sample["tasks"], rc.Sample["ops_per_task"] = nTasks, opsPer
 	rc.Nontrivial = true
 
+	pf := frugal.NewFProtocolFactory(thrift.NewTBinaryProtocolFactoryConf(nil))
+	// the context everybody hammers: created here, a clone, or one read off the wire
+	// (the last two start with whatever lazily computed state the implementation keeps "cold")
 	shared := frugal.NewFContext("shared")
+	sharedKind := []string{"new", "clone", "generic-clone", "received"}[tp.Intn("sharedkind", 4)]
+	switch sharedKind {
+	case "clone":
+		shared = shared.(frugal.FContextWithEphemeralProperties).Clone()
+	case "generic-clone":
+		shared = frugal.Clone(plainCtx{shared})
+	case "received":
+		body := EncodeBody(map[string]string{"_opid": "777777", "_cid": "shared", "_timeout": "5000"}, nil)
+		if rctx, err := pf.GetProtocol(&thrift.TMemoryBuffer{Buffer: bytes.NewBuffer(body)}).ReadRequestHeader(); err == nil {
+			shared = rctx
+		}
+	}
+	rc.Sample["shared_context"] = sharedKind
 	var seq int64
 	var hist []ctxOp
 	opids := map[string]string{}
@@ -108,11 +125,38 @@ func ctxHarness(rc *RunCtx) {
 		opids[id] = where
 	}
 	noteOpid(shared, "shared")
+	// a long-running process: contexts made long ago are still around when the
+	// counter reaches a width boundary
+	if b := []uint64{0, 0, 0, 1<<16 - 2, 1<<31 - 2, 1<<32 - 3, 1<<53 - 2, 1<<63 - 2}[tp.Intn("opidbase", 8)]; b != 0 {
+		for i := 0; i < 3; i++ {
+			noteOpid(frugal.NewFContext("old"), fmt.Sprintf("long-lived#%d", i))
+		}
+		frugal.SimSetOpIDBase(b)
+		rc.Fault("opid-counter-near-width-boundary")
+		rc.Sample["opid_base"] = b
+	}
 	valN := 0
 	finished := false
 	doneC := make(chan int, nTasks)
 	siteDone := simrt.HarnessSite("ctx.task-done")
-	pf := frugal.NewFProtocolFactory(thrift.NewTBinaryProtocolFactoryConf(nil))
+	setTimeout := func(t int, ms int) {
+		op := ctxOp{client: t, kind: "put", key: "kT", val: fmt.Sprint(ms)}
+		seq++
+		op.call = seq
+		shared.SetTimeout(time.Duration(ms) * time.Millisecond)
+		seq++
+		op.ret = seq
+		hist = append(hist, op)
+	}
+	getTimeout := func(t int) {
+		op := ctxOp{client: t, kind: "get", key: "kT", ok: true}
+		seq++
+		op.call = seq
+		op.val = fmt.Sprint(int64(shared.Timeout() / time.Millisecond))
+		seq++
+		op.ret = seq
+		hist = append(hist, op)
+	}
 
 	s.GoRoot("main", "main", func() {
 		for t := 0; t < nTasks; t++ {
@@ -121,8 +165,16 @@ func ctxHarness(rc *RunCtx) {
 				private := frugal.NewFContext(fmt.Sprintf("p%d", t))
 				noteOpid(private, fmt.Sprintf("task%d/private", t))
 				for i := 0; i < opsPer; i++ {
-					switch tp.Intn("ops", 10) {
-					case 0, 1, 2: // put on the shared context
+					switch k := tp.Intn("ops", 10); {
+					case tp.Intn("tmo", 5) == 4:
+						// the timeout of the shared context is a register like any header
+						if tp.Intn("tmo", 2) == 0 {
+							setTimeout(t, 1+tp.Intn("tmo", 9000))
+						} else {
+							getTimeout(t)
+						}
+						_ = k
+					case k <= 2: // put on the shared context
 						valN++
 						op := ctxOp{client: t, kind: "put", key: fmt.Sprintf("k%d", tp.Intn("ops", 3)), val: fmt.Sprintf("v%d", valN)}
 						seq++
@@ -131,7 +183,7 @@ func ctxHarness(rc *RunCtx) {
 						seq++
 						op.ret = seq
 						hist = append(hist, op)
-					case 3, 4: // get
+					case k <= 4: // get
 						op := ctxOp{client: t, kind: "get", key: fmt.Sprintf("k%d", tp.Intn("ops", 3))}
 						seq++
 						op.call = seq
@@ -139,7 +191,7 @@ func ctxHarness(rc *RunCtx) {
 						seq++
 						op.ret = seq
 						hist = append(hist, op)
-					case 5: // snapshot
+					case k == 5: // snapshot
 						op := ctxOp{client: t, kind: "all"}
 						seq++
 						op.call = seq
@@ -147,7 +199,7 @@ func ctxHarness(rc *RunCtx) {
 						seq++
 						op.ret = seq
 						hist = append(hist, op)
-					case 6: // clone the shared context while others mutate it
+					case k == 6: // clone the shared context while others mutate it
 						var c frugal.FContext
 						if tp.Intn("ops", 2) == 0 {
 							c = frugal.Clone(shared)
@@ -164,7 +216,7 @@ func ctxHarness(rc *RunCtx) {
 						if _, ok := shared.ResponseHeader("clone-only"); ok {
 							rc.Violate("C17", "clone-aliases-original", "response headers", "a response header added to a clone is visible on the original")
 						}
-					case 7: // clone independence on a private context (no concurrent writer: exact)
+					case k == 7: // clone independence on a private context (no concurrent writer: exact)
 						private.AddRequestHeader(fmt.Sprintf("h%d", i), fmt.Sprintf("x%d", i))
 						private.AddResponseHeader(fmt.Sprintf("r%d", i), "y")
 						private.SetTimeout(time.Duration(1+tp.Intn("ops", 5000)) * time.Millisecond)
@@ -229,7 +281,7 @@ func ctxHarness(rc *RunCtx) {
 						if o1 || o2 || c1 || c2 || c3 || private.Timeout() == 9999*time.Millisecond {
 							rc.Violate("C17", "clone-aliases-original", "private", fmt.Sprintf("changes leak between original and clone: %v %v %v %v %v", o1, o2, c1, c2, c3))
 						}
-					case 8: // a context received from the wire
+					case k == 8: // a context received from the wire
 						h := map[string]string{"_opid": fmt.Sprint(900000 + t*100 + i), "_cid": "w", "k0": "wire"}
 						body := EncodeBody(h, nil)
 						in := pf.GetProtocol(&thrift.TMemoryBuffer{Buffer: bytes.NewBuffer(body)})
@@ -242,7 +294,7 @@ func ctxHarness(rc *RunCtx) {
 						if v, _ := rctx.ResponseHeader("_opid"); v != h["_opid"] {
 							rc.Violate("C17", "received-context-lost-request-opid", "protocol.go", v)
 						}
-					case 9: // new contexts in a burst
+					case k == 9: // new contexts in a burst
 						{
 							w := plainCtx{frugal.NewFContext("w")}
 							noteOpid(w, fmt.Sprintf("task%d/wrapped#%d", t, i))
@@ -265,8 +317,8 @@ func ctxHarness(rc *RunCtx) {
 						}
 						shared.AddResponseHeader(fmt.Sprintf("r%d", t), "z")
 						shared.ResponseHeaders()
-						shared.SetTimeout(time.Second)
-						shared.Timeout()
+						setTimeout(t, 1000)
+						getTimeout(t)
 						shared.CorrelationID()
 					}
 				}
